@@ -305,6 +305,56 @@ fn pair_laws(vals: &[DIDUrl], rep: &mut Report) {
   }
 }
 
+/// The typed DID wrappers accept what the DID grammar accepts and nothing more: `did:jwk:<valid id>` followed by the row's
+/// path / query / fragment must be judged by DIDJwk exactly as CoreDID judges it, through every way in, and an accepted
+/// value's string form is the DID (no URL part silently dropped).
+fn check_did_jwk_row(case: &Value, variant: usize, rep: &mut Report) {
+  use identity_did::DIDJwk;
+  let row = &case["row"];
+  let out = &case["out"];
+  if !b(&out["ok"]) || !b(&row["pfx"]["ok"]) {
+    return;
+  }
+  let p = parts_of(row, out, variant);
+  let conc = concretise(&row["body"], variant);
+  let tail = conc.get(p.mid.len()..).unwrap_or("");
+  let id = "eyJrdHkiOiJPS1AiLCJjcnYiOiJFZDI1NTE5IiwieCI6IjExcVlBWUt4Q3JmVlNfN1R5V1FIT2c3aGN2UGFwaU1scndJYWFQY0hVUm8ifQ";
+  let input = format!("did:jwk:{id}{tail}");
+  let ctx = json!({"input": input, "row": row});
+  let res = guarded(|| {
+    let mut errs: Vec<(String, String)> = Vec::new();
+    let core = CoreDID::parse(&input).ok();
+    let ways: Vec<(&str, Option<DIDJwk>)> = vec![
+      ("parse", DIDJwk::parse(&input).ok()),
+      ("from_str", input.parse::<DIDJwk>().ok()),
+      ("try_from_str", DIDJwk::try_from(input.as_str()).ok()),
+      ("serde", serde_json::from_value::<DIDJwk>(json!(input)).ok()),
+    ];
+    for (way, got) in ways {
+      match (&got, &core) {
+        (Some(j), Some(c)) => {
+          if j.to_string() != c.to_string() || j.method_id() != id {
+            errs.push(("did_jwk/string_form".into(), format!("{way}: {:?} for input {input:?}", j.to_string())));
+          }
+        }
+        (Some(j), None) => errs.push(("did_jwk/accepted_what_is_not_a_did".into(), format!("{way}: accepted as {:?}", j.to_string()))),
+        (None, Some(_)) => errs.push(("~did_jwk/refused_a_did".into(), format!("{way}: refused"))),
+        (None, None) => {}
+      }
+    }
+    errs
+  });
+  match res {
+    Err(pn) => rep.mismatch("did_syntax/did_jwk/panic", &ctx, json!("no panic"), json!(pn), "panic"),
+    Ok(errs) => {
+      for (k, e) in errs {
+        let key = if let Some(rest) = k.strip_prefix('~') { format!("did_syntax/~{rest}") } else { format!("did_syntax/{k}") };
+        rep.mismatch(&key, &ctx, json!("as CoreDID judges the same string"), json!(e), "");
+      }
+    }
+  }
+}
+
 fn replay_chunk(cases: &[Value], rep: &mut Report) {
   let mut accepted = Vec::new();
   for case in cases {
@@ -312,7 +362,12 @@ fn replay_chunk(cases: &[Value], rep: &mut Report) {
     let kind = s(&case["row"]["kind"]);
     for variant in 0..2 {
       match kind {
-        "url" => check_url_row(case, variant, rep, &mut accepted),
+        "url" => {
+          check_url_row(case, variant, rep, &mut accepted);
+          if variant == 0 {
+            check_did_jwk_row(case, variant, rep);
+          }
+        }
         "set" => check_set_row(case, variant, rep),
         k => tool_error(&format!("bad row kind {k}")),
       }
